@@ -20,7 +20,7 @@ func GenTrace(property string, seed uint64, thorough bool) *Trace {
 	}
 	for i := 0; i < p.Steps; i++ {
 		st := Step{Op: names[sched.Pick(weights)]}
-		st.A = make([]uint32, 14)
+		st.A = make([]uint32, 24)
 		for j := range st.A {
 			st.A[j] = ops.U32()
 		}
